@@ -50,11 +50,11 @@ def positions(lo, hi, active_tol):
     if np.isfinite(lo) and np.isfinite(hi):
         if lo == hi:
             return [lo, lo - 0.5, lo + 0.25]
-        ps = [0.5 * (lo + hi), lo, hi, lo - 0.5, hi + 0.25, lo + 0.25 * active_tol, hi - 2.0 * active_tol]
+        ps = [0.5 * (lo + hi), lo, hi, lo - 0.5, hi + 0.25, lo + 0.25 * active_tol, hi - 2.0 * active_tol, lo - 0.5 * active_tol, hi + 0.5 * active_tol]
     elif np.isfinite(lo):
-        ps = [lo + 0.75, lo, lo - 0.5, lo + 0.25 * active_tol]
+        ps = [lo + 0.75, lo, lo - 0.5, lo + 0.25 * active_tol, lo - 0.5 * active_tol]
     elif np.isfinite(hi):
-        ps = [hi - 0.75, hi, hi + 0.25, hi - 0.25 * active_tol]
+        ps = [hi - 0.75, hi, hi + 0.25, hi - 0.25 * active_tol, hi + 0.5 * active_tol]
     else:
         ps = [0.3, -1.7]
     return ps
@@ -219,16 +219,23 @@ def run_case(case):
             keys.append(f"{spec['tag']}|{case['si']}|{pi}")
     # keep_rows on the Jacobian-like matrices of this case
     import scipy.sparse as sps
-    M = np.arange(1.0, 1.0 + (T.n + 1) * T.n).reshape((T.n + 1, T.n)) * np.tri(T.n + 1, T.n, 1)
+    M = np.arange(1.0, 1.0 + (T.n + 1) * (T.n + 1)).reshape((T.n + 1, T.n + 1)) * np.tri(T.n + 1, T.n + 1, 1)
     for fmt in ("coo", "csr", "csc"):
         sm = sps.coo_matrix(M).asformat(fmt)
         for bits in itertools.product([False, True], repeat=T.n + 1):
             flt = np.array(bits, dtype=bool)
+            before = sm.toarray()
+            views = [sm, sm.T, sm.T.T]   # transposed views share storage with the original
             got = keep_rows(sm, flt).toarray()
             want = M * flt[:, None]
             nchk[0] += 1
             if not np.array_equal(got, want):
                 bad("keep_rows", got, want, {"filter": [int(b) for b in bits], "fmt": fmt})
+            if flt.shape[0] == sm.T.shape[0]:
+                keep_rows(views[1], flt)
+            nchk[0] += 1
+            if not np.array_equal(sm.toarray(), before):
+                bad("keep_rows_modifies_argument", sm.toarray(), before, {"filter": [int(b) for b in bits], "fmt": fmt})
     seen, vs = set(), []
     for v in viol:
         if v["sig"] not in seen:
